@@ -82,6 +82,10 @@ var c17TreeFiles = []string{
 	// begin with '!' or '^', escaped metacharacters, '-' and ']' in classes):
 	// for every pattern of the "match-syntax" lists some of these match it as
 	// configured and others only under another reading of the same text.
+	// Where a RELATIVE location naming a place of the instance (relative to
+	// its data directory, its work directory) would lead when resolved
+	// against the process working directory (<root>/cwd) instead.
+	"cwd/userfilters/x.txt", "cwd/x.txt", "cwd/filters/9999.txt", "cwd/data/userfilters/x.txt", "x.txt",
 	"cls/a.txt", "cls/b.txt", "cls/p.txt", "cls/z.txt", "cls/!.txt", "cls/^.txt", "cls/-.txt", "cls/].txt",
 	"cls/*.txt", "cls/?.txt", `cls/\.txt`, "cls/a].txt", "cls/secret.txt", "cls/public.txt", "cls/!readme.txt",
 	"lists2/a.txt", "lists2/sub/e.txt",
@@ -365,6 +369,9 @@ type c17Loc struct {
 func c17Group(class string) string {
 	if strings.HasPrefix(class, "inst-") {
 		return "instance-file"
+	}
+	if class == "glob" {
+		return "glob"
 	}
 	switch class {
 	case "plain":
@@ -679,7 +686,11 @@ func c17PatternPool(r string) (fixed []c17Cfg, pool []string) {
 		// Positive control for the instance-derived files: the user filters
 		// directory of any data directory below the scratch directory, and
 		// the directory of the configuration file.
-		{"instance-userfilters-allowed", []string{filepath.Dir(r) + "/scratch/*/data/userfilters/*", filepath.Dir(r) + "/scratch/*/x.txt"}},
+		{"instance-userfilters-allowed", []string{filepath.Dir(r) + "/scratch/*/data/userfilters/*", filepath.Dir(r) + "/scratch/*/x.txt",
+			filepath.Dir(r) + "/scratch/*/data/x.txt", filepath.Dir(r) + "/scratch/*/data/filters/9999.txt"}},
+		// The other way round: what relative names resolve to in the working
+		// directory matches, the places in the data directory do not.
+		{"relative-names-allowed-in-cwd", []string{p("cwd/userfilters/*"), p("cwd/x.txt"), p("x.txt")}},
 		{"instance-userfilters-near-miss", []string{filepath.Dir(r) + "/scratch/*/data/userfilter/*", filepath.Dir(r) + "/scratch/*/data/*/y.txt",
 			filepath.Dir(r) + "/scratch/*/data/userfilters"}},
 		{"exact", []string{p("lists/a.txt")}},
@@ -904,6 +915,17 @@ func (in *c17Inst) bodyFiles(bodies []string) (ns []int) {
 func (e *c17Env) extraLocs(rng *rand.Rand, dataDir string, nDotted int) (locs []c17Loc) {
 	paths := e.c17ExtraPaths(dataDir)
 	paths = append(paths, [2]string{"cache file of another list", c17CacheFile(dataDir, 1000)})
+	// Relative names of the instance's places: relative to the data
+	// directory, to the work directory, to the filters directory.  Whatever
+	// base a server might resolve them against, the process working directory
+	// holds other files (canaries of the tree) under the same names.
+	for _, rel := range []string{"userfilters/x.txt", "./userfilters/x.txt", "x.txt", "filters/9999.txt", "../x.txt",
+		"userfilters/../userfilters//x.txt", "data/userfilters/x.txt", "9999.txt", "./x.txt"} {
+		if nDotted < 99 && rng.Intn(3) != 0 {
+			continue // a third of them in each refresh batch, all on the long-lived instance
+		}
+		locs = append(locs, c17Loc{S: rel, Class: "inst-relative-name", Target: filepath.Join(dataDir, rel)})
+	}
 	for _, kp := range paths {
 		abs := kp[1]
 		dir, name := filepath.Dir(abs), filepath.Base(abs)
@@ -2268,6 +2290,41 @@ func (e *c17Env) c17Locations(rng *rand.Rand, cfg c17Cfg, nRandom int) (locs []c
 		raw = raw[:24]
 	}
 	locs = append(locs, raw...)
+	// Locations that contain glob metacharacters: the patterns of this very
+	// list used as locations (plainly and dotted), and fixed would-be globs.
+	// As file names they name nothing (or one file literally); a server that
+	// expanded them would read every file they expand to.  Strings whose
+	// expansion holds a FIFO are left out (an expanding server would block
+	// for ever in a request that has no watchdog).
+	var globs []string
+	for _, p := range cfg.Patterns {
+		if filepath.IsAbs(p) {
+			d, b := filepath.Dir(p), filepath.Base(p)
+			globs = append(globs, p, d+"/../"+filepath.Base(d)+"//./"+b)
+		}
+	}
+	for _, g := range []string{"lists/*.txt", "lists/*", "lists/?.txt", "lists/[a-z].txt", "lists/{a,b}.txt", "*/*.txt", "secret/*.txt",
+		"secret/c*", `lists/\*`, "cls/[!p].txt", "cls/*", "lists/sub/../*.txt", "cwd/*", "lists/../lists//./*.txt", "l*s/a.txt", "top.tx?",
+		"lists/a.tx[s-u]", "inc/*.txt"} {
+		globs = append(globs, tr.root+"/"+g)
+	}
+	globs = append(globs, "*.txt", "./*", "lists/*", "../secret/*.txt", "file://"+tr.root+"/lists/*.txt")
+	rng.Shuffle(len(globs), func(i, j int) { globs[i], globs[j] = globs[j], globs[i] })
+	nGlob := 0
+	for _, g := range globs {
+		exp, _ := filepath.Glob(c17CleanAbs(tr.cwd, g))
+		fifo := false
+		for _, x := range exp {
+			if st, err := os.Lstat(x); err == nil && st.Mode()&os.ModeNamedPipe != 0 {
+				fifo = true
+			}
+		}
+		if fifo || nGlob >= verifkit.Pick(10, 40) {
+			continue
+		}
+		nGlob++
+		locs = append(locs, c17Loc{S: g, Class: "glob", Target: c17CleanAbs(tr.cwd, g)})
+	}
 	// Random spellings.
 	for i := 0; i < nRandom; i++ {
 		var target string
@@ -2444,7 +2501,7 @@ func c17Run(t *testing.T, rep *verifkit.Report, strace bool) {
 
 	fixed, pool := c17PatternPool(tr.root)
 	nRandomCfg := verifkit.Pick(5, 110)
-	nRandomLoc := verifkit.Pick(52, 240)
+	nRandomLoc := verifkit.Pick(30, 240)
 	cfgs := append([]c17Cfg(nil), fixed...)
 	for i := 0; i < nRandomCfg; i++ {
 		n := 1 + rng.Intn(4)
@@ -2493,7 +2550,7 @@ func c17Run(t *testing.T, rep *verifkit.Report, strace bool) {
 
 func TestVerifC17(t *testing.T) {
 	rep := verifkit.New("C17", "paths",
-		"case = (safe_fs_patterns list, location string, entry point in {add_url, set_url, set_url on a disabled list then enabling it, refresh of a list written into the configuration, second refresh, and the same refresh after a restart on a data directory that already holds cached files for the list ids: written by the monitor / left by an earlier instance that refreshed http lists under those ids / left by an earlier instance with a wider pattern list and the same locations}); the operation runs against a real DNSFilter (captured HTTP handlers) over a tree of 51 files that each hold a unique rule and whose text names neighbouring files in include-like syntaxes (plus FIFOs and HTML/binary files outside the patterns as content-independent observers at add_url/set_url); content of a file may become observable (stored list file, response body, rule count, CheckHost) only if its cleaned absolute path matches a pattern by filepath.Match; non-trivial = some reading of the location names an existing file; distinct by (entry point, patterns, location, block/allow)")
+		"case = (safe_fs_patterns list, location string, entry point in {add_url, set_url, set_url on a disabled list then enabling it, refresh of a list written into the configuration, second refresh, and the same refresh after a restart on a data directory that already holds cached files for the list ids: written by the monitor / left by an earlier instance that refreshed http lists under those ids / left by an earlier instance with a wider pattern list and the same locations}); the operation runs against a real DNSFilter (captured HTTP handlers) over a tree of 56 files that each hold a unique rule and whose text names neighbouring files in include-like syntaxes (plus FIFOs and HTML/binary files outside the patterns as content-independent observers at add_url/set_url); content of a file may become observable (stored list file, response body, rule count, CheckHost) only if its cleaned absolute path matches a pattern by filepath.Match; non-trivial = some reading of the location names an existing file; distinct by (entry point, patterns, location, block/allow)")
 	defer func() {
 		if err := rep.Write(); err != nil {
 			t.Fatal(err)
